@@ -198,18 +198,30 @@ def classify(prop_name, desc):
     return cls
 
 
-def clause_label(clines, ln, loop=False):
+def _ordinal(name):
+    m = re.search(r'\.(\d+)$', name)
+    return int(m.group(1)) if m else None
+
+
+def clause_label(clines, ln, loop=False, ordinal=None):
     """Label of the contract clause that contains line ln of the unit's C file:
     the /* comment */ that opens the clause if there is one, else its text.
-    Loop obligations are reported at the loop head; their clauses follow it."""
+    Loop obligations are reported at the loop head; their clauses follow it and
+    cbmc numbers the obligations in clause order (loop_invariant_step.k = k-th clause
+    of that kind in the function), so the ordinal picks the clause when it is in range."""
     k = ln - 1
     if loop:
-        for i in range(k, min(len(clines), k + 8)):
-            m = re.search(r'__CPROVER_loop_invariant\s*\(\s*/\*(.*?)\*/', clines[i])
-            if m:
-                return m.group(1).strip()
-            if i > k and re.search(r'[{;]\s*$', clines[i]) and '__CPROVER' not in clines[i]:
+        found = []
+        for i in range(k, min(len(clines), k + 14)):
+            if i > k and re.search(r'^\s*\{\s*$', clines[i]):
                 break
+            if re.search(r'__CPROVER_loop_invariant\s*\(', clines[i]):
+                m = re.search(r'__CPROVER_loop_invariant\s*\(\s*/\*(.*?)\*/', clines[i])
+                found.append(m.group(1).strip() if m else re.sub(r'\s+', ' ', clines[i].strip())[:200])
+        if found:
+            if ordinal is not None and 1 <= ordinal <= len(found):
+                return found[ordinal - 1]
+            return found[0] if len(found) == 1 else 'one of the loop invariants: ' + ' | '.join(found)
     lo = max(0, k - 8)
     start = k
     for i in range(k, lo - 1, -1):
@@ -322,6 +334,11 @@ def run_job(unit, job, cpath, workdir, tier):
     if results is None:
         r.reason = 'no result list from cbmc (rc=%s): %s' % (rc, alltext[-1500:])
         return r
+    loop_lines = {}
+    for it in results:
+        loc = it.get('sourceLocation', {}) or {}
+        if '.loop_invariant_' in it.get('property', ''):
+            loop_lines.setdefault(it['property'].split('.loop_invariant_')[0], set()).add(loc.get('line', ''))
     for it in results:
         loc = it.get('sourceLocation', {}) or {}
         o = {'name': it.get('property', ''), 'desc': it.get('description', ''),
@@ -332,7 +349,7 @@ def run_job(unit, job, cpath, workdir, tier):
                                                  'loop_decreases', 'loop_step_unwinding'):
             try:
                 ln = int(o['line'])
-                o['desc'] = o['desc'] + ' :: ' + clause_label(clines, ln, loop=o['cls'].startswith('loop_'))
+                o['desc'] = o['desc'] + ' :: ' + clause_label(clines, ln, loop=o['cls'].startswith('loop_'), ordinal=_ordinal(o['name']) if len(loop_lines.get(o['name'].split('.loop_')[0], ())) == 1 else None)
             except Exception:
                 pass
         r.obligations.append(o)
